@@ -1,4 +1,5 @@
 import CwPlus.Model.Cw20
+import CwPlus.Lemmas.Cw20Marketing
 import CwPlus.Props.C20
 /-!
 # C01 — cw20: total supply always equals the sum of all balances
@@ -66,7 +67,7 @@ theorem createAccounts_sum (l : List (AddrArg × Nat)) (b : AMap Addr Nat) (t : 
 /-- Every accepted instantiation establishes the invariant. -/
 theorem instantiate_inv {m : InstMsg} {s : State} (h : instantiate m = .ok s) : Inv s := by
   simp [instantiate] at h
-  obtain ⟨_, hnd, b, t, hc, _, w, _, rfl⟩ := h
+  obtain ⟨_, hnd, b, t, hc, _, w, _, mk, lg, _, rfl⟩ := h
   exact createAccounts_sum m.initial [] 0 hnd (by simp) hc (by simp [U128_MAX])
 
 /-- Every successful call of every message kind preserves the invariant. -/
@@ -138,6 +139,12 @@ theorem execute_inv {s s' : State} {blk : Block} {snd : Addr} {msg : Msg} {out :
     rw [e1] at h1
     have := debit_sum h1; have := credit_sum h2
     simp; omega
+  case updateMarketing p d m =>
+    obtain ⟨mk, rfl, _⟩ := execUpdateMarketing_frame h
+    simpa using hi
+  case uploadLogo l =>
+    obtain ⟨mk, rfl, _⟩ := execUploadLogo_frame h
+    simpa using hi
 
 theorem step_inv {s : State} (blk : Block) (snd : Addr) (msg : Msg) (hi : Inv s) : Inv (step s blk snd msg) := by
   unfold step
@@ -158,10 +165,10 @@ theorem reach_inv {m : InstMsg} {s : State} (h : instantiate m = .ok s) (ops : L
 /-! ## Supply and balance deltas per message kind -/
 
 /-- **C01, delta clause**: what a successful call does to the supply and to the balances, for each of
-the ten message kinds.  `mint` raises the supply and exactly the recipient's balance by `amt`;
+the message kinds.  `mint` raises the supply and exactly the recipient's balance by `amt`;
 `burn` / `burnFrom` lower the supply and exactly the sender's / owner's balance by `amt`; every other
-kind (transfers and sends, direct or through an allowance, minter and allowance updates) leaves the
-supply unchanged.  Holds for every state (the invariant is not needed). -/
+kind (transfers and sends, direct or through an allowance, minter, allowance, marketing and logo
+updates) leaves the supply unchanged.  Holds for every state (the invariant is not needed). -/
 theorem supply_delta {s s' : State} {blk : Block} {snd : Addr} {msg : Msg} {out : List Out}
     (h : execute s blk snd msg = .ok (s', out)) :
     match msg with
@@ -232,6 +239,12 @@ theorem supply_delta {s s' : State} {blk : Block} {snd : Addr} {msg : Msg} {out 
     simp [execSendFrom] at h
     obtain ⟨_, _, s1, hd, b1, h1, b2, h2, rfl, _⟩ := h
     exact (deduct_frame hd).2.1
+  case updateMarketing p d m =>
+    obtain ⟨mk, rfl, _⟩ := execUpdateMarketing_frame h
+    rfl
+  case uploadLogo l =>
+    obtain ⟨mk, rfl, _⟩ := execUploadLogo_frame h
+    rfl
 
 /-! ## The unchecked `+` of the credit step cannot panic -/
 
